@@ -607,3 +607,8 @@ mod tests {
         assert_eq!(None, it.next());
     }
 }
+
+#[cfg(feature = "verif")]
+pub fn verif_merge_fragments(old: &[(Attr, (u32, u32))], new: &[(Attr, (u32, u32))]) -> Vec<(Attr, (u32, u32))> {
+    merge_fragments(old, new)
+}
